@@ -184,7 +184,7 @@ func Replay(w *vt.W, path string, modelKD int, seed int64) int {
 }
 
 // Random generates and runs n random histories.
-func Random(w *vt.W, rng *rand.Rand, n int, big bool) {
+func Random(w *vt.W, rng *rand.Rand, n int, big, forceConc bool) {
 	for id := 0; id < n; id++ {
 		css := []int{1, 2, 3, 4, 5, 8}
 		if big {
@@ -192,7 +192,7 @@ func Random(w *vt.W, rng *rand.Rand, n int, big bool) {
 		}
 		cs := css[rng.Intn(len(css))]
 		ac := rng.Intn(2) == 0
-		conc := rng.Intn(3) == 0
+		conc := rng.Intn(3) == 0 || forceConc
 		cycles := 1 + rng.Intn(4)
 		var ops []Op
 		for c := 0; c < cycles; c++ {
